@@ -1,5 +1,5 @@
 (* Linearizability of the list-bin protocol (C01, C08 stage S1). *)
-From Flurry Require Import Model.BinProto Proofs.LinProofs.
+From Flurry Require Import Model.BinProto Proofs.LinProofs Proofs.BinProtoLemmas.
 From Coq Require Import List Bool Lia Permutation NArith Arith.
 From Hammer Require Import Tactics.
 Import ListNotations.
@@ -629,3 +629,961 @@ Proof.
   - rewrite cas_cell_new in Hq. discriminate.
   - assert (Ha' : a < length (heap s)) by lia. rewrite cas_cell_old in Hq by exact Ha'. specialize (Hi _ _ Ha' Hq). lia.
 Qed.
+
+(* ---------- configuration updates ---------- *)
+Definition bump (c : cfg) : cfg := mkCfg (sh c) (thr c) (now c + 1)%N (hist c).
+Definition dthr := mkT [] None PDone 0.
+
+Lemma get_thr_upd ths t th' s n h t' : t < length ths ->
+  get_thr (mkCfg s (upd_list ths t th') n h) t' = if Nat.eqb t' t then th' else nth t' ths dthr.
+Proof.
+  intros Ht. unfold BinProto.get_thr. cbn [thr]. destruct (Nat.eqb_spec t' t) as [->|Hn].
+  - apply nth_upd_same. exact Ht.
+  - apply nth_upd_other; assumption.
+Qed.
+
+Lemma thr_lt c t : at_ (get_thr c t) <> PDone \/ todo (get_thr c t) <> [] -> t < length (thr c).
+Proof.
+  intros H. destruct (Nat.lt_ge_cases t (length (thr c))) as [Hl|Hl]; [exact Hl|].
+  unfold BinProto.get_thr in H. rewrite nth_overflow in H by exact Hl. cbn in H. destruct H as [H|H]; congruence.
+Qed.
+
+Lemma binv_upd c s' t th' n' h' :
+  binv c -> t < length (thr c) -> sh_inv s' -> pc_inv s' t (at_ th') -> thr_cur th' ->
+  (forall t', t' <> t -> pc_inv s' t' (at_ (get_thr c t'))) ->
+  (forall a t', lock_at s' a = Some t' ->
+     if Nat.eqb t' t then held (at_ th') = Some a else held (at_ (get_thr c t')) = Some a) ->
+  binv (mkCfg s' (upd_list (thr c) t th') n' h').
+Proof.
+  intros (Hsh & Hthr & Hlk) Ht Hsh' Hpc' Hcur' Hoth Hlk'. split; [exact Hsh'|]. split.
+  - intros t'. rewrite get_thr_upd by exact Ht. cbn [sh]. destruct (Nat.eqb_spec t' t) as [->|Hn].
+    + split; assumption.
+    + split; [apply Hoth; exact Hn|apply Hthr].
+  - intros a t' Ha. cbn [sh] in Ha. rewrite get_thr_upd by exact Ht. specialize (Hlk' a t' Ha).
+    destruct (Nat.eqb_spec t' t); exact Hlk'.
+Qed.
+
+(* no shared write *)
+Lemma binv_upd_local c t th' n' h' :
+  binv c -> t < length (thr c) -> pc_inv (sh c) t (at_ th') -> thr_cur th' ->
+  held (at_ th') = held (at_ (get_thr c t)) ->
+  binv (mkCfg (sh c) (upd_list (thr c) t th') n' h').
+Proof.
+  intros Hinv Ht Hpc Hcur Hheld. pose proof Hinv as (Hsh & Hthr & Hlk).
+  apply binv_upd; try assumption.
+  - intros t' _. apply Hthr.
+  - intros a t' Ha. specialize (Hlk a t' Ha). destruct (Nat.eqb_spec t' t) as [->|]; [rewrite Hheld|]; exact Hlk.
+Qed.
+
+(* a heap/bin write on behalf of bin i, whose head lock (if any) t holds *)
+Lemma binv_upd_write c s' i t th' n' h' :
+  binv c -> t < length (thr c) -> sh_inv s' -> frame (sh c) s' i ->
+  (forall a, lock_at s' a = lock_at (sh c) a) ->
+  (forall h, bin_at (sh c) i = Some h -> lock_at (sh c) h = Some t) ->
+  pc_inv s' t (at_ th') -> thr_cur th' -> held (at_ th') = held (at_ (get_thr c t)) ->
+  binv (mkCfg s' (upd_list (thr c) t th') n' h').
+Proof.
+  intros Hinv Ht Hsh' Hfr Hlocks Hown Hpc Hcur Hheld. pose proof Hinv as (Hsh & Hthr & Hlk).
+  apply binv_upd; try assumption.
+  - intros t' Hne. eapply pc_inv_stable; [exact Hsh| | | | |apply Hthr].
+    + intros a Ha. rewrite Hlocks. exact Ha.
+    + intros k h Hb Hl. destruct (Nat.eq_dec (bini k) i) as [<-|Hni].
+      * specialize (Hown h Hb). congruence.
+      * eapply frame_same_bin; eassumption.
+    + apply Hfr.
+    + apply Hfr.
+  - intros a t' Ha. rewrite Hlocks in Ha. specialize (Hlk a t' Ha).
+    destruct (Nat.eqb_spec t' t) as [->|]; [rewrite Hheld|]; exact Hlk.
+Qed.
+
+Lemma same_bin_locks s s' i : heap s' = heap s -> bins s' = bins s -> same_bin s s' i.
+Proof. intros Hh Hb. unfold same_bin, bin_at, cell_at. rewrite Hh, Hb. auto. Qed.
+
+(* acquire the free lock h *)
+Lemma binv_upd_lock c h t th' n' h' :
+  binv c -> t < length (thr c) -> h < length (heap (sh c)) -> lock_at (sh c) h = None ->
+  held (at_ (get_thr c t)) = None -> held (at_ th') = Some h ->
+  pc_inv (set_lock (sh c) h (Some t)) t (at_ th') -> thr_cur th' ->
+  binv (mkCfg (set_lock (sh c) h (Some t)) (upd_list (thr c) t th') n' h').
+Proof.
+  intros Hinv Ht Hh Hfree Hold Hnew Hpc Hcur. pose proof Hinv as (Hsh & Hthr & Hlk).
+  assert (HL : h < length (locks (sh c))) by (destruct Hsh as (_ & -> & _); exact Hh).
+  apply binv_upd; try assumption.
+  - destruct Hsh as (Hb & Hl & Hp & Hbins). split; [exact Hb|]. split; [|split; [exact Hp|exact Hbins]].
+    cbn. rewrite upd_list_length by exact HL. exact Hl.
+  - intros t' Hne. eapply pc_inv_stable; [exact Hsh| | | | |apply Hthr].
+    + intros a Ha. rewrite lock_at_set_lock_other; [exact Ha|exact HL|congruence].
+    + intros. apply same_bin_locks; reflexivity.
+    + cbn. lia.
+    + reflexivity.
+  - intros a t' Ha. destruct (Nat.eq_dec a h) as [->|Hne].
+    + rewrite lock_at_set_lock_same in Ha by exact HL. injection Ha as <-. rewrite Nat.eqb_refl. exact Hnew.
+    + rewrite lock_at_set_lock_other in Ha by assumption. specialize (Hlk a t' Ha).
+      destruct (Nat.eqb_spec t' t) as [->|]; [congruence|exact Hlk].
+Qed.
+
+(* release the lock h held by t *)
+Lemma binv_upd_unlock c h t th' n' h' :
+  binv c -> t < length (thr c) -> held (at_ (get_thr c t)) = Some h -> held (at_ th') = None ->
+  pc_inv (set_lock (sh c) h None) t (at_ th') -> thr_cur th' ->
+  binv (mkCfg (set_lock (sh c) h None) (upd_list (thr c) t th') n' h').
+Proof.
+  intros Hinv Ht Hold Hnew Hpc Hcur. pose proof Hinv as (Hsh & Hthr & Hlk).
+  pose proof (held_lock _ _ _ Hinv Hold) as Hmine.
+  assert (HL : h < length (locks (sh c))) by (eapply lock_at_lt; exact Hmine).
+  apply binv_upd; try assumption.
+  - destruct Hsh as (Hb & Hl & Hp & Hbins). split; [exact Hb|]. split; [|split; [exact Hp|exact Hbins]].
+    cbn. rewrite upd_list_length by exact HL. exact Hl.
+  - intros t' Hne. eapply pc_inv_stable; [exact Hsh| | | | |apply Hthr].
+    + intros a Ha. rewrite lock_at_set_lock_other; [exact Ha|exact HL|congruence].
+    + intros. apply same_bin_locks; reflexivity.
+    + cbn. lia.
+    + reflexivity.
+  - intros a t' Ha. destruct (Nat.eq_dec a h) as [->|Hne].
+    + rewrite lock_at_set_lock_same in Ha by exact HL. discriminate.
+    + rewrite lock_at_set_lock_other in Ha by assumption. specialize (Hlk a t' Ha).
+      destruct (Nat.eqb_spec t' t) as [->|]; [congruence|exact Hlk].
+Qed.
+
+(* ---------- walking ---------- *)
+Lemma walking_start s t k h : sh_inv s -> lock_at s h = Some t -> bin_at s (bini k) = Some h -> walking s t k h [] h.
+Proof.
+  intros (_ & _ & _ & Hbins) Hl Hb. split; [exact Hl|]. split; [exact Hb|]. split; [|constructor].
+  destruct (Hbins (bini k) (bini_lt k)) as (l & Hs & _). rewrite Hb in Hs.
+  destruct (pseg_next_some _ _ _ Hs) as (l' & ->). exists l'. exact Hs.
+Qed.
+
+Lemma walking_advance s t k h pre p q :
+  walking s t k h pre p -> keyat s p <> k -> cnext (cell_at s p) = Some q -> walking s t k h (pre ++ [p]) q.
+Proof.
+  intros (Hl & Hb & (l2 & Hs) & Hf) Hk Hq. split; [exact Hl|]. split; [exact Hb|]. split.
+  - pose proof (pseg_mid _ _ _ _ _ Hs) as Hm. rewrite <- cell_at_cellh, Hq in Hm.
+    destruct (pseg_next_some _ _ _ Hm) as (l' & ->). exists l'. rewrite <- app_assoc. exact Hs.
+  - apply Forall_app. split; [exact Hf|]. constructor; [exact Hk|constructor].
+Qed.
+
+Lemma walking_end s t k h pre p :
+  sh_inv s -> walking s t k h pre p -> cnext (cell_at s p) = None -> bin_ok s (bini k) (pre ++ [p]).
+Proof.
+  intros Hinv Hw Hn. destruct (walking_list _ _ _ _ _ _ Hinv Hw) as (l2 & Hok).
+  destruct Hok as (Hs & Hr). pose proof (pseg_mid _ _ _ _ _ Hs) as Hm. rewrite <- cell_at_cellh, Hn in Hm.
+  apply pseg_next_none in Hm. subst l2. split; assumption.
+Qed.
+
+Lemma walking_head s t k h pre p : walking s t k h pre p -> forall h', bin_at s (bini k) = Some h' -> lock_at s h' = Some t.
+Proof. intros (Hl & Hb & _) h' Hb'. rewrite Hb in Hb'. injection Hb' as <-. exact Hl. Qed.
+
+Lemma pred_of_snoc pre p : pred_of (pre ++ [p]) (Some p).
+Proof. exists pre. reflexivity. Qed.
+
+(* ---------- effects of the writes, from the writer's invariant ---------- *)
+Lemma swap_effect s t k h pre p v :
+  sh_inv s -> walking s t k h pre p -> keyat s p = k ->
+  sh_inv (swap_sh s p v) /\ frame s (swap_sh s p v) (bini k) /\ (forall a, lock_at (swap_sh s p v) a = lock_at s a).
+Proof.
+  intros Hinv Hw Hk. destruct (walking_list _ _ _ _ _ _ Hinv Hw) as (l2 & Hok).
+  assert (Hp : p < length (heap s)). { eapply bin_ok_in; [exact Hok|]. apply in_or_app. right. left. reflexivity. }
+  split; [apply swap_sh_inv; assumption|]. split; [|reflexivity]. rewrite <- Hk. apply swap_frame. exact Hp.
+Qed.
+
+Lemma append_effect s t k h pre p v :
+  sh_inv s -> walking s t k h pre p -> keyat s p <> k -> cnext (cell_at s p) = None ->
+  sh_inv (append_sh s p k v) /\ frame s (append_sh s p k v) (bini k) /\
+  (forall a, lock_at (append_sh s p k v) a = lock_at s a) /\
+  bin_ok s (bini k) (pre ++ [p]) /\ bin_ok (append_sh s p k v) (bini k) ((pre ++ [p]) ++ [length (heap s)]).
+Proof.
+  intros Hinv Hw Hk Hn. pose proof (walking_end _ _ _ _ _ _ Hinv Hw Hn) as Hok.
+  assert (Hp : p < length (heap s) /\ bini (keyat s p) = bini k).
+  { eapply bin_ok_in; [exact Hok|]. apply in_or_app. right. left. reflexivity. }
+  destruct Hp as [Hp Hbk].
+  assert (Hf : Forall (fun a => keyat s a <> k) (pre ++ [p])).
+  { apply Forall_app. split; [apply Hw|]. constructor; [exact Hk|constructor]. }
+  pose proof (append_bin_ok _ _ _ _ v Hok Hf) as Hok'.
+  assert (Hfr : frame s (append_sh s p k v) (bini k)) by (rewrite <- Hbk; apply append_frame; exact Hp).
+  assert (Hlk : forall a, lock_at (append_sh s p k v) a = lock_at s a).
+  { intros a. unfold append_sh. change (lock_at (set_cell ?x _ _) a) with (lock_at x a). apply lock_alloc. apply Hinv. }
+  split; [|auto]. pose proof Hinv as (Hb & Hl & Hpi & _).
+  eapply sh_inv_frame; [exact Hinv|exact Hfr|exact Hb| |apply append_ptr_inc; assumption|eexists; exact Hok'].
+  rewrite append_len by exact Hp. unfold append_sh. change (locks (set_cell ?x _ _)) with (locks x).
+  rewrite locks_alloc_len. lia.
+Qed.
+
+Definition unlink_sh (s : shared) (i : nat) (pred : option nat) (nxt : option nat) : shared :=
+  match pred with Some pr => redirect_sh s pr nxt | None => set_bin s i nxt end.
+
+Lemma unlink_effect s t k h pre pred e :
+  sh_inv s -> walking s t k h pre e -> pred_of pre pred ->
+  let s' := unlink_sh s (bini k) pred (cnext (cell_at s e)) in
+  sh_inv s' /\ frame s s' (bini k) /\ (forall a, lock_at s' a = lock_at s a) /\
+  exists l0 l2, pre = l0 /\ bin_ok s (bini k) (l0 ++ e :: l2) /\ bin_ok s' (bini k) (l0 ++ l2) /\
+     (forall a, cval (cell_at s' a) = cval (cell_at s a)) /\
+     (forall a, keyat s' a = keyat s a) /\
+     (forall a, ~ In a (l0 ++ l2) -> cell_at s' a = cell_at s a).
+Proof.
+  intros Hinv Hw Hpr s'. destruct (walking_list _ _ _ _ _ _ Hinv Hw) as (l2 & Hok).
+  pose proof Hinv as (Hb & Hl & Hpi & Hbins).
+  assert (Hi : bini k < length (bins s)) by (rewrite Hb; apply bini_lt).
+  destruct pred as [pr|]; cbn in Hpr, s'.
+  - destruct Hpr as (pre' & ->). rewrite <- app_assoc in Hok. cbn [app] in Hok.
+    assert (Hp : pr < length (heap s) /\ bini (keyat s pr) = bini k).
+    { eapply bin_ok_in; [exact Hok|]. apply in_or_app. right. left. reflexivity. }
+    destruct Hp as [Hp Hbk].
+    pose proof (unlink_pred_bin_ok _ _ _ _ _ _ Hok) as Hok'. fold s' in Hok'.
+    assert (Hfr : frame s s' (bini k)) by (rewrite <- Hbk; apply redirect_frame; exact Hp).
+    split; [|split; [exact Hfr|split; [reflexivity|]]].
+    + eapply sh_inv_frame; [exact Hinv|exact Hfr|exact Hb| | |eexists; exact Hok'].
+      * unfold s'. rewrite redirect_len by exact Hp. exact Hl.
+      * eapply unlink_pred_ptr_inc; eassumption.
+    + exists (pre' ++ [pr]), l2. rewrite <- !app_assoc. cbn [app]. split; [reflexivity|]. split; [exact Hok|]. split; [exact Hok'|].
+      split; [|split].
+      * intros a. unfold s'. rewrite redirect_cell by exact Hp. destruct (Nat.eqb_spec a pr) as [->|]; reflexivity.
+      * intros a. apply redirect_key. exact Hp.
+      * intros a Ha. unfold s'. rewrite redirect_cell by exact Hp. destruct (Nat.eqb_spec a pr) as [->|]; [|reflexivity].
+        exfalso. apply Ha. apply in_or_app. right. left. reflexivity.
+  - subst pre. cbn [app] in Hok.
+    pose proof (unlink_head_bin_ok _ _ _ _ Hi Hok) as Hok'. fold s' in Hok'.
+    assert (Hfr : frame s s' (bini k)) by (apply set_bin_frame; exact Hi).
+    split; [|split; [exact Hfr|split; [reflexivity|]]].
+    + eapply sh_inv_frame; [exact Hinv|exact Hfr| | | |eexists; exact Hok'].
+      * unfold s', set_bin. cbn. rewrite upd_list_length by exact Hi. exact Hb.
+      * exact Hl.
+      * exact Hpi.
+    + exists [], l2. cbn [app]. split; [reflexivity|]. split; [exact Hok|]. split; [exact Hok'|]. split; [|split]; reflexivity.
+Qed.
+
+Lemma cas_effect s k v :
+  sh_inv s -> bin_at s (bini k) = None ->
+  let s' := cas_sh s (bini k) k v in
+  sh_inv s' /\ frame s s' (bini k) /\ (forall a, lock_at s' a = lock_at s a) /\ bin_ok s' (bini k) [length (heap s)].
+Proof.
+  intros Hinv Hb s'. pose proof Hinv as (Hbl & Hl & Hpi & Hbins).
+  assert (Hi : bini k < length (bins s)) by (rewrite Hbl; apply bini_lt).
+  pose proof (cas_bin_ok s k v Hi) as Hok'. fold s' in Hok'.
+  assert (Hfr : frame s s' (bini k)) by (apply cas_frame; exact Hi).
+  split; [|split; [exact Hfr|split; [|exact Hok']]].
+  - eapply sh_inv_frame; [exact Hinv|exact Hfr| | |apply cas_ptr_inc; exact Hpi|eexists; exact Hok'].
+    + unfold s', cas_sh, set_bin. cbn. rewrite upd_list_length by exact Hi. exact Hbl.
+    + unfold s'. rewrite cas_len. unfold cas_sh. change (locks (set_bin ?x _ _)) with (locks x). rewrite locks_alloc_len. lia.
+  - intros a. unfold s', cas_sh. change (lock_at (set_bin ?x _ _) a) with (lock_at x a). apply lock_alloc. exact Hl.
+Qed.
+
+(* ---------- one step preserves the invariant ---------- *)
+Notation goto := BinProto.goto.
+Notation finish := BinProto.finish.
+
+Definition moved (c : cfg) (t : nat) (p : pc) : thread :=
+  mkT (todo (get_thr c t)) (cur (get_thr c t)) p (inv_at (get_thr c t)).
+Definition ended (c : cfg) (t : nat) : thread :=
+  mkT (todo (get_thr c t)) None PDone (inv_at (get_thr c t)).
+
+Lemma goto_shape c s' t p :
+  goto (with_sh (bump c) s') t p = mkCfg s' (upd_list (thr c) t (moved c t p)) (now c + 1)%N (hist c).
+Proof. reflexivity. Qed.
+Lemma finish_shape c s' t r o : cur (get_thr c t) = Some o ->
+  finish (with_sh (bump c) s') t r =
+  mkCfg s' (upd_list (thr c) t (ended c t)) (now c + 1)%N
+        (mkH t o r (inv_at (get_thr c t)) (now c + 1)%N :: hist c).
+Proof.
+  intros H. unfold BinProto.finish. change (BinProto.get_thr (with_sh (bump c) s') t) with (get_thr c t).
+  rewrite H. reflexivity.
+Qed.
+Lemma with_sh_bump c : bump c = with_sh (bump c) (sh c).
+Proof. reflexivity. Qed.
+
+Lemma thr_cur_moved c t p o : cur (get_thr c t) = Some o -> pc_cur p o -> thr_cur (moved c t p).
+Proof. intros H Hp. unfold thr_cur, moved. cbn. rewrite H. exact Hp. Qed.
+Lemma thr_cur_ended c t : thr_cur (ended c t).
+Proof. reflexivity. Qed.
+
+Ltac shape Hcur :=
+  repeat match goal with
+  | |- context [goto (bump ?c) ?t ?p] => rewrite (with_sh_bump c)
+  | |- context [finish (bump ?c) ?t ?r] => rewrite (with_sh_bump c)
+  end;
+  rewrite ?goto_shape; try (erewrite finish_shape by exact Hcur).
+
+Lemma binv_step c t : binv c -> binv (step c t).
+Proof.
+  intros Hinv. pose proof Hinv as (Hsh & Hthr & Hlk). destruct (Hthr t) as [Hpi Hcu].
+  unfold BinProto.step. change (mkCfg (sh c) (thr c) (now c + 1)%N (hist c)) with (bump c). cbv zeta.
+  change (BinProto.get_thr (bump c) t) with (get_thr c t). change (sh (bump c)) with (sh c).
+  unfold thr_cur in Hcu.
+  destruct (at_ (get_thr c t)) eqn:Hpc.
+  all: try (assert (Ht : t < length (thr c)) by (apply thr_lt; left; rewrite Hpc; discriminate)).
+  all: destruct (cur (get_thr c t)) as [o0|] eqn:Hcur; try discriminate Hcu; try contradiction Hcu.
+  all: cbn [pc_inv pc_cur] in Hpi, Hcu.
+  - (* PStart *) subst o0.
+    destruct (bin_at (sh c) (bini (op_key o))) as [h|] eqn:Hb.
+    + assert (Hh : h < length (heap (sh c))).
+      { destruct Hsh as (_ & _ & _ & Hbins). destruct (Hbins _ (bini_lt (op_key o))) as (l & Hok).
+        pose proof Hok as (Hs & _). rewrite Hb in Hs. destruct (pseg_next_some _ _ _ Hs) as (l' & ->).
+        eapply bin_ok_in; [exact Hok|left; reflexivity]. }
+      destruct o as [k|k v|k v|k|k f]; cbn [op_key] in *.
+      * shape Hcur. apply (binv_upd_local _ _ _ _ _ Hinv Ht); [exact I|eapply thr_cur_moved; [exact Hcur|reflexivity]|rewrite Hpc; reflexivity].
+      * shape Hcur. apply (binv_upd_local _ _ _ _ _ Hinv Ht); [exact Hh|eapply thr_cur_moved; [exact Hcur|reflexivity]|rewrite Hpc; reflexivity].
+      * destruct (N.eqb_spec (ckey (cell_at (sh c) h)) k) as [Hk|Hk]; shape Hcur.
+        -- apply (binv_upd_local _ _ _ _ _ Hinv Ht); [split; assumption|eapply thr_cur_moved; [exact Hcur|reflexivity]|rewrite Hpc; reflexivity].
+        -- apply (binv_upd_local _ _ _ _ _ Hinv Ht); [exact Hh|eapply thr_cur_moved; [exact Hcur|reflexivity]|rewrite Hpc; reflexivity].
+      * shape Hcur. apply (binv_upd_local _ _ _ _ _ Hinv Ht); [exact Hh|eapply thr_cur_moved; [exact Hcur|reflexivity]|rewrite Hpc; reflexivity].
+      * shape Hcur. apply (binv_upd_local _ _ _ _ _ Hinv Ht); [exact Hh|eapply thr_cur_moved; [exact Hcur|reflexivity]|rewrite Hpc; reflexivity].
+    + destruct o as [k|k v|k v|k|k f]; cbn [op_key] in *; shape Hcur;
+        (apply (binv_upd_local _ _ _ _ _ Hinv Ht); [exact I| first [apply thr_cur_ended | eapply thr_cur_moved; [exact Hcur|reflexivity]] |rewrite Hpc; reflexivity]).
+  - (* GWalk *)
+    destruct (N.eqb_spec (ckey (cell_at (sh c) p)) k) as [Hk|Hk]; [|destruct (cnext (cell_at (sh c) p)) as [q|] eqn:Hq]; shape Hcur;
+      (apply (binv_upd_local _ _ _ _ _ Hinv Ht); [exact I| first [apply thr_cur_ended | eapply thr_cur_moved; [exact Hcur|exact Hcu]] |rewrite Hpc; reflexivity]).
+  - (* PutCas *)
+    destruct (bin_at (sh c) (bini k)) as [h|] eqn:Hb.
+    + shape Hcur. apply (binv_upd_local _ _ _ _ _ Hinv Ht); [exact I|eapply thr_cur_moved; [exact Hcur|exact Hcu]|rewrite Hpc; reflexivity].
+    + rewrite alloc_eq. cbv beta iota. change (sh (bump c)) with (sh c).
+      destruct (cas_effect _ k v Hsh Hb) as (Hsh' & Hfr & Hlocks & _).
+      shape Hcur. eapply (binv_upd_write _ _ _ _ _ _ _ Hinv Ht Hsh' Hfr Hlocks); [intros h Hh; congruence|exact I|apply thr_cur_ended|rewrite Hpc; reflexivity].
+  - (* PutFast *)
+    shape Hcur. apply (binv_upd_local _ _ _ _ _ Hinv Ht); [exact I|apply thr_cur_ended|rewrite Hpc; reflexivity].
+  - (* PutLock *)
+    destruct (lock_at (sh c) h) as [u|] eqn:Hl; [exact Hinv|]. shape Hcur.
+    apply (binv_upd_lock _ _ _ _ _ _ Hinv Ht Hpi Hl); [rewrite Hpc; reflexivity|reflexivity| |eapply thr_cur_moved; [exact Hcur|exact Hcu]].
+    cbn. apply lock_at_set_lock_same. destruct Hsh as (_ & -> & _). exact Hpi.
+  - (* PutReval *)
+    assert (HU : forall r o', pc_cur (PutUnlock h r (Some o')) o0 -> binv (goto (bump c) t (PutUnlock h r (Some o')))).
+    { intros r o' Ho. shape Hcur. apply (binv_upd_local _ _ _ _ _ Hinv Ht); [exact Hpi|eapply thr_cur_moved; [exact Hcur|exact Ho]|rewrite Hpc; reflexivity]. }
+    destruct (bin_at (sh c) (bini k)) as [h'|] eqn:Hb; [destruct (Nat.eqb_spec h' h) as [->|Hne]|]; try (apply HU; exact Hcu).
+    shape Hcur. apply (binv_upd_local _ _ _ _ _ Hinv Ht); [|eapply thr_cur_moved; [exact Hcur|exact Hcu]|rewrite Hpc; reflexivity].
+    exists []. apply walking_start; assumption.
+  - (* PutWalk *)
+    destruct Hpi as (pre & Hw).
+    destruct (N.eqb_spec (ckey (cell_at (sh c) p)) k) as [Hk|Hk]; [destruct no_repl|destruct (cnext (cell_at (sh c) p)) as [q|] eqn:Hq].
+    + shape Hcur. apply (binv_upd_local _ _ _ _ _ Hinv Ht); [exact (proj1 Hw)|eapply thr_cur_moved; [exact Hcur|exact I]|rewrite Hpc; reflexivity].
+    + destruct (swap_effect _ _ _ _ _ _ v Hsh Hw Hk) as (Hsh' & Hfr & Hlocks).
+      shape Hcur. eapply (binv_upd_write _ _ _ _ _ _ _ Hinv Ht Hsh' Hfr Hlocks);
+        [exact (walking_head _ _ _ _ _ _ Hw)|unfold moved; cbn [at_ pc_inv]; rewrite Hlocks; exact (proj1 Hw)|eapply thr_cur_moved; [exact Hcur|exact I]|rewrite Hpc; reflexivity].
+    + shape Hcur. apply (binv_upd_local _ _ _ _ _ Hinv Ht); [|eapply thr_cur_moved; [exact Hcur|exact Hcu]|rewrite Hpc; reflexivity].
+      exists (pre ++ [p]). eapply walking_advance; eassumption.
+    + rewrite alloc_eq. cbv beta iota. change (sh (bump c)) with (sh c).
+      destruct (append_effect _ _ _ _ _ _ v Hsh Hw Hk Hq) as (Hsh' & Hfr & Hlocks & _).
+      shape Hcur. eapply (binv_upd_write _ _ _ _ _ _ _ Hinv Ht Hsh' Hfr Hlocks);
+        [exact (walking_head _ _ _ _ _ _ Hw)|unfold moved; cbn [at_ pc_inv]; rewrite Hlocks; exact (proj1 Hw)|eapply thr_cur_moved; [exact Hcur|exact I]|rewrite Hpc; reflexivity].
+  - (* PutUnlock *)
+    change (sh (bump c)) with (sh c). destruct retry as [o'|]; shape Hcur.
+    + apply (binv_upd_unlock _ _ _ _ _ _ Hinv Ht); [rewrite Hpc; reflexivity|reflexivity|exact I|eapply thr_cur_moved; [exact Hcur|exact Hcu]].
+    + apply (binv_upd_unlock _ _ _ _ _ _ Hinv Ht); [rewrite Hpc; reflexivity|reflexivity|exact I|apply thr_cur_ended].
+  - (* RmLock *)
+    destruct (lock_at (sh c) h) as [u|] eqn:Hl; [exact Hinv|]. shape Hcur.
+    apply (binv_upd_lock _ _ _ _ _ _ Hinv Ht Hpi Hl); [rewrite Hpc; reflexivity|reflexivity| |eapply thr_cur_moved; [exact Hcur|exact Hcu]].
+    cbn. apply lock_at_set_lock_same. destruct Hsh as (_ & -> & _). exact Hpi.
+  - (* RmReval *)
+    assert (HU : forall r o', pc_cur (PutUnlock h r (Some o')) o0 -> binv (goto (bump c) t (PutUnlock h r (Some o')))).
+    { intros r o' Ho. shape Hcur. apply (binv_upd_local _ _ _ _ _ Hinv Ht); [exact Hpi|eapply thr_cur_moved; [exact Hcur|exact Ho]|rewrite Hpc; reflexivity]. }
+    destruct (bin_at (sh c) (bini k)) as [h'|] eqn:Hb; [destruct (Nat.eqb_spec h' h) as [->|Hne]|]; try (apply HU; exact Hcu).
+    shape Hcur. apply (binv_upd_local _ _ _ _ _ Hinv Ht); [|eapply thr_cur_moved; [exact Hcur|exact Hcu]|rewrite Hpc; reflexivity].
+    exists []. split; [apply walking_start; assumption|reflexivity].
+  - (* RmWalk *)
+    destruct Hpi as (pre & Hw & Hpr).
+    destruct (N.eqb_spec (ckey (cell_at (sh c) e)) k) as [Hk|Hk]; [|destruct (cnext (cell_at (sh c) e)) as [q|] eqn:Hq]; shape Hcur.
+    + apply (binv_upd_local _ _ _ _ _ Hinv Ht); [|eapply thr_cur_moved; [exact Hcur|exact Hcu]|rewrite Hpc; reflexivity].
+      exists pre. auto.
+    + apply (binv_upd_local _ _ _ _ _ Hinv Ht); [|eapply thr_cur_moved; [exact Hcur|exact Hcu]|rewrite Hpc; reflexivity].
+      exists (pre ++ [e]). split; [eapply walking_advance; eassumption|apply pred_of_snoc].
+    + apply (binv_upd_local _ _ _ _ _ Hinv Ht); [exact (proj1 Hw)|eapply thr_cur_moved; [exact Hcur|exact I]|rewrite Hpc; reflexivity].
+  - (* RmFound *)
+    destruct Hpi as (pre & Hw & Hpr & Hk & Hn). shape Hcur.
+    apply (binv_upd_local _ _ _ _ _ Hinv Ht); [|eapply thr_cur_moved; [exact Hcur|exact Hcu]|rewrite Hpc; reflexivity].
+    exists pre. auto.
+  - (* RmUnlink *)
+    destruct Hpi as (pre & Hw & Hpr & Hk & Hn & Hv). subst nxt.
+    destruct (unlink_effect _ _ _ _ _ _ _ Hsh Hw Hpr) as (Hsh' & Hfr & Hlocks & _).
+    shape Hcur. eapply (binv_upd_write _ _ _ _ _ _ _ Hinv Ht Hsh' Hfr Hlocks);
+        [exact (walking_head _ _ _ _ _ _ Hw)|unfold moved; cbn [at_ pc_inv]; rewrite Hlocks; exact (proj1 Hw)|eapply thr_cur_moved; [exact Hcur|exact I]|rewrite Hpc; reflexivity].
+  - (* CpLock *)
+    destruct (lock_at (sh c) h) as [u|] eqn:Hl; [exact Hinv|]. shape Hcur.
+    apply (binv_upd_lock _ _ _ _ _ _ Hinv Ht Hpi Hl); [rewrite Hpc; reflexivity|reflexivity| |eapply thr_cur_moved; [exact Hcur|exact Hcu]].
+    cbn. apply lock_at_set_lock_same. destruct Hsh as (_ & -> & _). exact Hpi.
+  - (* CpReval *)
+    assert (HU : forall r o', pc_cur (PutUnlock h r (Some o')) o0 -> binv (goto (bump c) t (PutUnlock h r (Some o')))).
+    { intros r o' Ho. shape Hcur. apply (binv_upd_local _ _ _ _ _ Hinv Ht); [exact Hpi|eapply thr_cur_moved; [exact Hcur|exact Ho]|rewrite Hpc; reflexivity]. }
+    destruct (bin_at (sh c) (bini k)) as [h'|] eqn:Hb; [destruct (Nat.eqb_spec h' h) as [->|Hne]|]; try (apply HU; exact Hcu).
+    shape Hcur. apply (binv_upd_local _ _ _ _ _ Hinv Ht); [|eapply thr_cur_moved; [exact Hcur|exact Hcu]|rewrite Hpc; reflexivity].
+    exists []. split; [apply walking_start; assumption|reflexivity].
+  - (* CpWalk *)
+    destruct Hpi as (pre & Hw & Hpr).
+    destruct (N.eqb_spec (ckey (cell_at (sh c) p)) k) as [Hk|Hk]; [|destruct (cnext (cell_at (sh c) p)) as [q|] eqn:Hq]; shape Hcur.
+    + apply (binv_upd_local _ _ _ _ _ Hinv Ht); [|eapply thr_cur_moved; [exact Hcur|exact Hcu]|rewrite Hpc; reflexivity].
+      exists pre. auto.
+    + apply (binv_upd_local _ _ _ _ _ Hinv Ht); [|eapply thr_cur_moved; [exact Hcur|exact Hcu]|rewrite Hpc; reflexivity].
+      exists (pre ++ [p]). split; [eapply walking_advance; eassumption|apply pred_of_snoc].
+    + apply (binv_upd_local _ _ _ _ _ Hinv Ht); [exact (proj1 Hw)|eapply thr_cur_moved; [exact Hcur|exact I]|rewrite Hpc; reflexivity].
+  - (* CpFound *)
+    destruct Hpi as (pre & Hw & Hpr & Hk & Hn). shape Hcur.
+    apply (binv_upd_local _ _ _ _ _ Hinv Ht); [|eapply thr_cur_moved; [exact Hcur|]|rewrite Hpc; reflexivity].
+    + exists pre. auto.
+    + cbn. exists f. auto.
+  - (* CpApply *)
+    destruct Hpi as (pre & Hw & Hpr & Hk & Hn & Hv). destruct nv as [v'|].
+    + destruct (swap_effect _ _ _ _ _ _ v' Hsh Hw Hk) as (Hsh' & Hfr & Hlocks).
+      shape Hcur. eapply (binv_upd_write _ _ _ _ _ _ _ Hinv Ht Hsh' Hfr Hlocks);
+        [exact (walking_head _ _ _ _ _ _ Hw)|unfold moved; cbn [at_ pc_inv]; rewrite Hlocks; exact (proj1 Hw)|eapply thr_cur_moved; [exact Hcur|exact I]|rewrite Hpc; reflexivity].
+    + subst nxt. destruct (unlink_effect _ _ _ _ _ _ _ Hsh Hw Hpr) as (Hsh' & Hfr & Hlocks & _).
+      shape Hcur. eapply (binv_upd_write _ _ _ _ _ _ _ Hinv Ht Hsh' Hfr Hlocks);
+        [exact (walking_head _ _ _ _ _ _ Hw)|unfold moved; cbn [at_ pc_inv]; rewrite Hlocks; exact (proj1 Hw)|eapply thr_cur_moved; [exact Hcur|exact I]|rewrite Hpc; reflexivity].
+  - (* PDone *)
+    destruct (todo (get_thr c t)) as [|o rest] eqn:Htodo; [exact Hinv|].
+    assert (Ht : t < length (thr c)) by (apply thr_lt; right; rewrite Htodo; discriminate).
+    unfold BinProto.set_thr. cbn [sh thr now hist bump].
+    apply (binv_upd_local _ _ _ _ _ Hinv Ht); [exact I|reflexivity|rewrite Hpc; reflexivity].
+Qed.
+
+(* ---------- every reachable configuration satisfies the invariant ---------- *)
+Notation init := (BinProto.init nbins).
+
+Lemma get_thr_init progs t : at_ (get_thr (init progs) t) = PDone /\ cur (get_thr (init progs) t) = None.
+Proof.
+  unfold BinProto.get_thr, BinProto.init. cbn [thr].
+  change (mkT [] None PDone 0) with ((fun p => mkT p None PDone 0) []). rewrite map_nth. cbn. auto.
+Qed.
+
+Lemma binv_init progs : binv (init progs).
+Proof.
+  split; [|split].
+  - split; [apply repeat_length|]. split; [reflexivity|]. split; [intros a q Ha; cbn in Ha; lia|].
+    intros i Hi. exists []. split; [|split; constructor].
+    unfold bin_at, BinProto.init. cbn [sh bins].
+    assert (H : nth i (repeat (@None nat) nbins) None = None).
+    { destruct (nth_in_or_default i (repeat (@None nat) nbins) None) as [Hin|E]; [|exact E].
+      apply repeat_spec in Hin. exact Hin. }
+    rewrite H. constructor.
+  - intros t. destruct (get_thr_init progs t) as [Ha Hc]. unfold thr_cur. rewrite Ha, Hc. split; [exact I|reflexivity].
+  - intros a t H. unfold lock_at, BinProto.init in H. cbn in H. destruct a; discriminate.
+Qed.
+
+Lemma binv_run sched : forall c, binv c -> binv (run c sched).
+Proof.
+  induction sched as [|t sched IH]; intros c H; [exact H|]. cbn. apply IH. apply binv_step. exact H.
+Qed.
+
+Theorem binproto_inv progs sched : binv (run (init progs) sched).
+Proof. apply binv_run. apply binv_init. Qed.
+
+(* ---------- deadlock freedom ---------- *)
+Lemma forallb_false {A} (f : A -> bool) l : forallb f l = false -> exists x, In x l /\ f x = false.
+Proof.
+  induction l as [|a l IH]; cbn; [discriminate|]. destruct (f a) eqn:Ea; cbn; intros H.
+  - destruct (IH H) as (x & Hx & Hf). exists x. auto.
+  - exists a. auto.
+Qed.
+
+Theorem binv_deadlock_free c : binv c -> all_done c = false ->
+  exists t, t < length (thr c) /\ enabled c t = true.
+Proof.
+  intros Hinv Hnd. pose proof Hinv as (_ & _ & Hlk).
+  unfold all_done in Hnd. apply forallb_false in Hnd as (th & Hin & Hf).
+  destruct (In_nth _ _ dthr Hin) as (t & Ht & Hnth).
+  destruct (enabled c t) eqn:Een; [exists t; auto|].
+  assert (Hblk : exists h u, lock_at (sh c) h = Some u).
+  { unfold enabled in Een. change (BinProto.get_thr c t) with (nth t (thr c) dthr) in Een. rewrite Hnth in Een.
+    destruct (at_ th) eqn:Ea; try discriminate Een;
+      try (destruct (lock_at (sh c) h) as [u|] eqn:El; [exists h, u; exact El|discriminate Een]).
+    destruct (todo th); [discriminate Hf|discriminate Een]. }
+  destruct Hblk as (h & u & Hl). specialize (Hlk h u Hl). exists u. split.
+  - apply thr_lt. left. intros E. rewrite E in Hlk. discriminate.
+  - unfold enabled. destruct (at_ (get_thr c u)); cbn in Hlk; try discriminate Hlk; reflexivity.
+Qed.
+
+Theorem binproto_deadlock_free progs sched :
+  let c := run (init progs) sched in
+  all_done c = false -> exists t, t < length (thr c) /\ enabled c t = true.
+Proof. intros c. apply binv_deadlock_free. apply binproto_inv. Qed.
+
+(* ====================================================================== *)
+(* Layer 2: the abstract value of one key                                  *)
+(* ====================================================================== *)
+Variable k : N.
+Notation i0 := (bini k).
+
+Definition absv (s : shared) : option Z := walk s (length (heap s)) (bin_at s i0) k.
+
+Fixpoint lfind (s : shared) (l : list nat) : option Z :=
+  match l with
+  | [] => None
+  | a :: l' => if (keyat s a =? k)%N then Some (cval (cell_at s a)) else lfind s l'
+  end.
+
+Lemma walk_lfind s l : forall fuel p, pseg (heap s) p l None -> length l <= fuel -> walk s fuel p k = lfind s l.
+Proof.
+  induction l as [|a l IH]; intros fuel p Hs Hf.
+  - inversion Hs; subst. destruct fuel; reflexivity.
+  - apply pseg_cons_inv in Hs as [-> Hs]. destruct fuel as [|fuel]; [cbn in Hf; lia|].
+    cbn [walk lfind]. unfold keyat. destruct (ckey (cell_at s a) =? k)%N; [reflexivity|].
+    apply IH; [exact Hs|cbn in Hf; lia].
+Qed.
+
+Lemma absv_lfind s l : bin_ok s i0 l -> absv s = lfind s l.
+Proof.
+  intros Hok. pose proof (bin_ok_nodup _ _ _ Hok) as Hnd. destruct Hok as (Hs & Hf & _).
+  apply walk_lfind; [exact Hs|]. apply NoDup_bounded_length; [exact Hnd|].
+  eapply Forall_impl; [|exact Hf]. cbn. tauto.
+Qed.
+
+Lemma lfind_app_none s l1 l2 : Forall (fun a => keyat s a <> k) l1 -> lfind s (l1 ++ l2) = lfind s l2.
+Proof.
+  induction 1 as [|a l1 Ha _ IH]; cbn; [reflexivity|]. destruct (N.eqb_spec (keyat s a) k); [contradiction|exact IH].
+Qed.
+
+Lemma lfind_none s l : Forall (fun a => keyat s a <> k) l -> lfind s l = None.
+Proof. intros H. rewrite <- (app_nil_r l). rewrite lfind_app_none by exact H. reflexivity. Qed.
+
+Lemma lfind_ext s s' l :
+  (forall a, In a l -> keyat s' a = keyat s a /\ (keyat s a = k -> cval (cell_at s' a) = cval (cell_at s a))) ->
+  lfind s' l = lfind s l.
+Proof.
+  induction l as [|a l IH]; intros H; cbn; [reflexivity|].
+  destruct (H a (or_introl eq_refl)) as [Hk Hv]. rewrite Hk.
+  destruct (N.eqb_spec (keyat s a) k) as [E|E]; [rewrite Hv by exact E; reflexivity|].
+  apply IH. intros b Hb. apply H. right. exact Hb.
+Qed.
+
+(* keys are unique on a live list: the nodes around the one holding k do not hold k *)
+Lemma nodup_keys_split s l1 e l2 :
+  NoDup (map (keyat s) (l1 ++ e :: l2)) -> keyat s e = k ->
+  Forall (fun a => keyat s a <> k) l1 /\ Forall (fun a => keyat s a <> k) l2.
+Proof.
+  intros Hn Hk. rewrite map_app in Hn. cbn [map] in Hn. apply NoDup_remove_2 in Hn.
+  split; apply Forall_forall; intros a Ha Hka; apply Hn; apply in_or_app; [left|right];
+    apply in_map_iff; exists a; split; congruence.
+Qed.
+
+(* scanning l we reach p before any node holding k *)
+Fixpoint nokb (s : shared) (l : list nat) (p : nat) : Prop :=
+  match l with [] => True | a :: l' => a = p \/ (keyat s a <> k /\ nokb s l' p) end.
+
+Lemma nokb_ext s s' l p : (forall a, In a l -> keyat s' a = keyat s a) -> nokb s l p -> nokb s' l p.
+Proof.
+  induction l as [|a l IH]; cbn; intros Hk H; [exact I|]. destruct H as [H|[H1 H2]]; [left; exact H|right].
+  split; [rewrite Hk by (left; reflexivity); exact H1|]. apply IH; [|exact H2]. intros b Hb. apply Hk. right. exact Hb.
+Qed.
+Lemma nokb_app s l x p : In p l -> nokb s l p -> nokb s (l ++ x) p.
+Proof.
+  induction l as [|a l IH]; cbn; intros Hin H; [contradiction|].
+  destruct H as [H|[H1 H2]]; [left; exact H|]. destruct Hin as [Hin|Hin]; [left; exact Hin|]. right. auto.
+Qed.
+Lemma nokb_remove s m1 e m2 p : p <> e -> nokb s (m1 ++ e :: m2) p -> nokb s (m1 ++ m2) p.
+Proof.
+  intros Hne. induction m1 as [|a m1 IH]; cbn; intros H.
+  - destruct H as [H|[_ H]]; [congruence|exact H].
+  - destruct H as [H|[H1 H2]]; [left; exact H|right; auto].
+Qed.
+Lemma nokb_prefix s pre p l2 : Forall (fun a => keyat s a <> k) pre -> nokb s (pre ++ p :: l2) p.
+Proof. induction 1 as [|a pre Ha _ IH]; cbn; [left; reflexivity|right; auto]. Qed.
+
+Definition livek (s : shared) (p : nat) : Prop := exists l, bin_ok s i0 l /\ In p l.
+Definition Pk (s : shared) (p : nat) : Prop := exists l, bin_ok s i0 l /\ In p l /\ nokb s l p.
+Definition deadk (s : shared) (p : nat) : Prop :=
+  p < length (heap s) /\ bini (keyat s p) = i0 /\ ~ livek s p.
+
+Lemma Pk_livek s p : Pk s p -> livek s p.
+Proof. intros (l & H1 & H2 & _). exists l. auto. Qed.
+
+Lemma livek_dec s p : sh_inv s -> livek s p \/ ~ livek s p.
+Proof.
+  intros (_ & _ & _ & Hbins). destruct (Hbins i0 (bini_lt k)) as (l & Hok).
+  destruct (in_dec Nat.eq_dec p l) as [Hin|Hin]; [left; exists l; auto|right].
+  intros (l' & Hok' & Hin'). rewrite (bin_ok_det _ _ _ _ Hok Hok') in Hin. contradiction.
+Qed.
+
+Lemma Pk_hit s p : Pk s p -> keyat s p = k -> absv s = Some (cval (cell_at s p)).
+Proof.
+  intros (l & Hok & Hin & Hno) Hk. rewrite (absv_lfind _ _ Hok). clear Hok.
+  induction l as [|a l IH]; [contradiction|]. cbn [lfind].
+  destruct (Nat.eq_dec a p) as [->|Hne].
+  - rewrite Hk, N.eqb_refl. reflexivity.
+  - destruct Hin as [Hin|Hin]; [contradiction|]. destruct Hno as [Hno|[Hka Hno]]; [contradiction|].
+    destruct (N.eqb_spec (keyat s a) k); [contradiction|]. apply IH; assumption.
+Qed.
+
+Lemma Pk_walk s l p : forall hd, pseg (heap s) hd l None -> In p l -> nokb s l p -> keyat s p <> k ->
+  match cnext (cell_at s p) with
+  | None => lfind s l = None
+  | Some q => In q l /\ nokb s l q
+  end.
+Proof.
+  induction l as [|a l IH]; intros hd Hs Hin Hno Hk; [contradiction|].
+  apply pseg_cons_inv in Hs as [-> Hs]. destruct (Nat.eq_dec a p) as [->|Hne].
+  - rewrite <- cell_at_cellh in Hs. destruct (cnext (cell_at s p)) as [q|].
+    + destruct (pseg_next_some _ _ _ Hs) as (l' & ->). split; [right; left; reflexivity|].
+      cbn. right. split; [exact Hk|]. left. reflexivity.
+    + apply pseg_next_none in Hs. subst l. cbn. destruct (N.eqb_spec (keyat s p) k); [contradiction|reflexivity].
+  - destruct Hin as [Hin|Hin]; [contradiction|]. destruct Hno as [Hno|[Hka Hno]]; [contradiction|].
+    specialize (IH _ Hs Hin Hno Hk). destruct (cnext (cell_at s p)) as [q|].
+    + destruct IH as [Hq Hnq]. split; [right; exact Hq|]. cbn. right. auto.
+    + cbn. destruct (N.eqb_spec (keyat s a) k); [contradiction|exact IH].
+Qed.
+
+Lemma Pk_miss s p : Pk s p -> keyat s p <> k -> cnext (cell_at s p) = None -> absv s = None.
+Proof.
+  intros (l & Hok & Hin & Hno) Hk Hn. rewrite (absv_lfind _ _ Hok).
+  pose proof (Pk_walk s l p _ (proj1 Hok) Hin Hno Hk) as H. rewrite Hn in H. exact H.
+Qed.
+Lemma Pk_next s p q : Pk s p -> keyat s p <> k -> cnext (cell_at s p) = Some q -> Pk s q.
+Proof.
+  intros (l & Hok & Hin & Hno) Hk Hn.
+  pose proof (Pk_walk s l p _ (proj1 Hok) Hin Hno Hk) as H. rewrite Hn in H. exists l. tauto.
+Qed.
+Lemma Pk_head s h : sh_inv s -> bin_at s i0 = Some h -> Pk s h.
+Proof.
+  intros (_ & _ & _ & Hbins) Hb. destruct (Hbins i0 (bini_lt k)) as (l & Hok). exists l. split; [exact Hok|].
+  destruct Hok as (Hs & _). rewrite Hb in Hs. destruct (pseg_next_some _ _ _ Hs) as (l' & ->).
+  split; [left; reflexivity|]. cbn. left. reflexivity.
+Qed.
+Lemma absv_empty s : sh_inv s -> bin_at s i0 = None -> absv s = None.
+Proof.
+  intros (_ & _ & _ & Hbins) Hb. destruct (Hbins i0 (bini_lt k)) as (l & Hok). rewrite (absv_lfind _ _ Hok).
+  destruct Hok as (Hs & _). rewrite Hb in Hs. apply pseg_next_none in Hs. subst l. reflexivity.
+Qed.
+
+(* ---------- the two-state relation behind hindsight ---------- *)
+Definition hs_rel (s s' : shared) : Prop :=
+  length (heap s) <= length (heap s') /\
+  forall p, (Pk s p -> livek s' p -> Pk s' p) /\
+            (livek s p \/ deadk s p -> ~ livek s' p -> deadk s' p /\ cell_at s' p = cell_at s p) /\
+            (deadk s p -> ~ livek s' p).
+
+(* how one step may transform the live list of a bin *)
+Inductive ltrans (s : shared) (l l' : list nat) : Prop :=
+| lt_same : l' = l -> ltrans s l l'
+| lt_app a : l' = l ++ [a] -> length (heap s) <= a -> ltrans s l l'
+| lt_del m1 e m2 : l = m1 ++ e :: m2 -> l' = m1 ++ m2 -> ltrans s l l'.
+
+Lemma hs_rel_ltrans s s' l l' :
+  bin_ok s i0 l -> bin_ok s' i0 l' -> ltrans s l l' ->
+  length (heap s) <= length (heap s') ->
+  (forall a, a < length (heap s) -> keyat s' a = keyat s a) ->
+  (forall p, p < length (heap s) -> bini (keyat s p) = i0 -> ~ In p l' -> cell_at s' p = cell_at s p) ->
+  hs_rel s s'.
+Proof.
+  intros Hok Hok' Hlt Hlen Hkey Hcell. split; [exact Hlen|]. intros p.
+  assert (Hlive : forall q, livek s q -> In q l).
+  { intros q (l0 & H0 & Hq). rewrite (bin_ok_det _ _ _ _ Hok H0). exact Hq. }
+  assert (Hlive' : forall q, livek s' q -> In q l').
+  { intros q (l0 & H0 & Hq). rewrite (bin_ok_det _ _ _ _ Hok' H0). exact Hq. }
+  assert (Hkl : forall a, In a l -> keyat s' a = keyat s a).
+  { intros a Ha. apply Hkey. eapply bin_ok_in; eassumption. }
+  assert (Hres : forall q, q < length (heap s) -> In q l' -> In q l).
+  { intros q Hq Hin. destruct Hlt as [->|a -> Ha|m1 e m2 -> ->].
+    - exact Hin.
+    - apply in_app_or in Hin as [Hin|[<-|[]]]; [exact Hin|lia].
+    - apply in_app_or in Hin as [Hin|Hin]; apply in_or_app; [left|right; right]; exact Hin. }
+  split; [|split].
+  - intros (l0 & H0 & Hin & Hno) Hl'. rewrite <- (bin_ok_det _ _ _ _ Hok H0) in *. clear l0 H0.
+    apply Hlive' in Hl'. exists l'. split; [exact Hok'|]. split; [exact Hl'|].
+    destruct Hlt as [->|a -> Ha|m1 e m2 -> ->].
+    + eapply nokb_ext; [|exact Hno]. exact Hkl.
+    + apply nokb_app; [exact Hin|]. eapply nokb_ext; [|exact Hno]. exact Hkl.
+    + eapply nokb_ext; [intros a Ha; apply Hkl|].
+      * apply in_app_or in Ha as [Ha|Ha]; apply in_or_app; [left|right; right]; exact Ha.
+      * apply (nokb_remove s m1 e m2 p); [|exact Hno]. intros ->. pose proof (bin_ok_nodup _ _ _ Hok) as Hnd.
+        apply NoDup_remove_2 in Hnd. contradiction.
+  - intros Hp Hnl.
+    assert (Hp' : p < length (heap s) /\ bini (keyat s p) = i0).
+    { destruct Hp as [Hp|(H1 & H2 & _)]; [|auto]. eapply bin_ok_in; [exact Hok|apply Hlive; exact Hp]. }
+    destruct Hp' as [Hlt' Hb]. split.
+    + split; [lia|]. split; [rewrite Hkey by exact Hlt'; exact Hb|exact Hnl].
+    + apply Hcell; [exact Hlt'|exact Hb|]. intros Hin. apply Hnl. exists l'. auto.
+  - intros (H1 & H2 & H3) Hl'. apply H3. exists l. split; [exact Hok|]. apply Hres; [exact H1|]. apply Hlive'. exact Hl'.
+Qed.
+
+(* nothing that key k can see changed *)
+Lemma hs_rel_same s s' : sh_inv s -> heap s' = heap s -> bins s' = bins s -> hs_rel s s' /\ absv s' = absv s.
+Proof.
+  intros Hinv Hh Hb. pose proof Hinv as (_ & _ & _ & Hbins). destruct (Hbins i0 (bini_lt k)) as (l & Hok).
+  assert (Hok' : bin_ok s' i0 l).
+  { unfold bin_ok, bin_at, keyat, cell_at in *. rewrite Hh, Hb. exact Hok. }
+  split.
+  - eapply hs_rel_ltrans; [exact Hok|exact Hok'|apply lt_same; reflexivity|rewrite Hh; lia| |].
+    + intros a _. unfold keyat, cell_at. rewrite Hh. reflexivity.
+    + intros p _ _ _. unfold cell_at. rewrite Hh. reflexivity.
+  - unfold absv, walk, bin_at. rewrite Hh, Hb.
+    assert (E : forall fuel p, walk s' fuel p k = walk s fuel p k).
+    { induction fuel as [|fuel IH]; intros [a|]; cbn; try reflexivity. unfold cell_at. rewrite Hh.
+      destruct (ckey (nth a (heap s) (mkCell 0 0 None)) =? k)%N; [reflexivity|]. apply IH. }
+    apply E.
+Qed.
+
+(* a write on behalf of another bin *)
+Lemma hs_rel_frame s s' i : sh_inv s -> frame s s' i -> i <> i0 -> hs_rel s s' /\ absv s' = absv s.
+Proof.
+  intros Hinv Hfr Hne. pose proof Hinv as (_ & _ & _ & Hbins). destruct (Hbins i0 (bini_lt k)) as (l & Hok).
+  assert (Hok' : bin_ok s' i0 l) by (eapply frame_bin_ok; [exact Hfr| |exact Hok]; congruence).
+  destruct Hfr as (Fb & Fc & Fk & Fl). split.
+  - eapply hs_rel_ltrans; [exact Hok|exact Hok'|apply lt_same; reflexivity|exact Fl|exact Fk|].
+    intros p Hp Hb _. apply Fc; [exact Hp|]. rewrite Hb. congruence.
+  - rewrite (absv_lfind _ _ Hok), (absv_lfind _ _ Hok'). apply lfind_ext. intros a Ha.
+    destruct (bin_ok_in _ _ _ _ Hok Ha) as [Hlt Hb]. unfold keyat. rewrite Fc; [auto|exact Hlt|]. rewrite Hb. congruence.
+Qed.
+
+(* ---------- the writes, seen from key k (k' is the writer's key) ---------- *)
+Lemma lfind_snoc_ne s l a : keyat s a <> k -> lfind s (l ++ [a]) = lfind s l.
+Proof.
+  intros Ha. induction l as [|b l IH]; cbn.
+  - destruct (N.eqb_spec (keyat s a) k); [contradiction|reflexivity].
+  - rewrite IH. reflexivity.
+Qed.
+Lemma lfind_remove_ne s l1 e l2 : keyat s e <> k -> lfind s (l1 ++ e :: l2) = lfind s (l1 ++ l2).
+Proof.
+  intros He. induction l1 as [|b l1 IH]; cbn.
+  - destruct (N.eqb_spec (keyat s e) k); [contradiction|reflexivity].
+  - rewrite IH. reflexivity.
+Qed.
+Lemma bini_ne k' : bini k' <> i0 -> k' <> k.
+Proof. intros H ->. apply H. reflexivity. Qed.
+
+Definition kview (k' : N) (s s' : shared) (before after : option Z) : Prop :=
+  hs_rel s s' /\ (k' = k -> absv s = before /\ absv s' = after) /\ (k' <> k -> absv s' = absv s).
+
+Lemma swap_effect2 s t k' h pre p v :
+  sh_inv s -> walking s t k' h pre p -> keyat s p = k' ->
+  kview k' s (swap_sh s p v) (Some (cval (cell_at s p))) (Some v).
+Proof.
+  intros Hinv Hw Hk. destruct (swap_effect _ _ _ _ _ _ v Hinv Hw Hk) as (Hinv' & Hfr & _).
+  destruct (Nat.eq_dec (bini k') i0) as [Hb|Hb].
+  2:{ destruct (hs_rel_frame _ _ _ Hinv Hfr Hb) as [H1 H2]. split; [exact H1|]. split; [|intros _; exact H2].
+      intros ->. contradiction. }
+  destruct (walking_list _ _ _ _ _ _ Hinv Hw) as (l2 & Hok). rewrite Hb in Hok.
+  assert (Hp : p < length (heap s)). { eapply bin_ok_in; [exact Hok|]. apply in_or_app. right. left. reflexivity. }
+  pose proof (swap_bin_ok _ _ v _ _ Hp Hok) as Hok'.
+  split; [|split].
+  - eapply hs_rel_ltrans; [exact Hok|exact Hok'|apply lt_same; reflexivity|rewrite swap_len by exact Hp; lia| |].
+    + intros a _. apply swap_key. exact Hp.
+    + intros q _ _ Hq. rewrite swap_cell by exact Hp. destruct (Nat.eqb_spec q p) as [->|]; [|reflexivity].
+      exfalso. apply Hq. apply in_or_app. right. left. reflexivity.
+  - intros ->. rewrite (absv_lfind _ _ Hok), (absv_lfind _ _ Hok'). destruct Hw as (_ & _ & _ & Hf). split.
+    + rewrite lfind_app_none by exact Hf. cbn [lfind]. rewrite Hk, N.eqb_refl. reflexivity.
+    + rewrite lfind_app_none.
+      * cbn [lfind]. rewrite swap_key, Hk, N.eqb_refl by exact Hp. rewrite swap_cell, Nat.eqb_refl by exact Hp. reflexivity.
+      * eapply Forall_impl; [|exact Hf]. cbn. intros a Ha. rewrite swap_key by exact Hp. exact Ha.
+  - intros Hne. rewrite (absv_lfind _ _ Hok), (absv_lfind _ _ Hok'). apply lfind_ext. intros a _.
+    split; [apply swap_key; exact Hp|]. intros Ha. rewrite swap_cell by exact Hp.
+    destruct (Nat.eqb_spec a p) as [->|]; [congruence|reflexivity].
+Qed.
+
+Lemma append_effect2 s t k' h pre p v :
+  sh_inv s -> walking s t k' h pre p -> keyat s p <> k' -> cnext (cell_at s p) = None ->
+  kview k' s (append_sh s p k' v) None (Some v).
+Proof.
+  intros Hinv Hw Hk Hn. destruct (append_effect _ _ _ _ _ _ v Hinv Hw Hk Hn) as (Hinv' & Hfr & _ & Hok & Hok').
+  destruct (Nat.eq_dec (bini k') i0) as [Hb|Hb].
+  2:{ destruct (hs_rel_frame _ _ _ Hinv Hfr Hb) as [H1 H2]. split; [exact H1|]. split; [|intros _; exact H2].
+      intros ->. contradiction. }
+  rewrite Hb in Hok, Hok'.
+  assert (Hp : p < length (heap s)). { eapply bin_ok_in; [exact Hok|]. apply in_or_app. right. left. reflexivity. }
+  assert (Hkeys : forall a, In a (pre ++ [p]) -> keyat (append_sh s p k' v) a = keyat s a).
+  { intros a Ha. apply append_key; [exact Hp|]. eapply bin_ok_in; eassumption. }
+  assert (Hknew : keyat (append_sh s p k' v) (length (heap s)) = k').
+  { unfold keyat. rewrite append_cell by exact Hp. destruct (Nat.eqb_spec (length (heap s)) p); [lia|].
+    rewrite Nat.eqb_refl. reflexivity. }
+  split; [|split].
+  - eapply hs_rel_ltrans; [exact Hok|exact Hok'|eapply lt_app; [reflexivity|lia]|rewrite append_len by exact Hp; lia| |].
+    + intros a Ha. apply append_key; assumption.
+    + intros q Hq _ Hnin. rewrite append_cell by exact Hp. destruct (Nat.eqb_spec q p) as [->|].
+      * exfalso. apply Hnin. apply in_or_app. left. apply in_or_app. right. left. reflexivity.
+      * destruct (Nat.eqb_spec q (length (heap s))); [lia|reflexivity].
+  - intros ->. rewrite (absv_lfind _ _ Hok), (absv_lfind _ _ Hok').
+    assert (Hf : Forall (fun a => keyat s a <> k) (pre ++ [p])).
+    { apply Forall_app. split; [apply Hw|]. constructor; [exact Hk|constructor]. }
+    split; [apply lfind_none; exact Hf|]. rewrite lfind_app_none.
+    + cbn [lfind]. rewrite Hknew, N.eqb_refl. rewrite append_cell by exact Hp.
+      destruct (Nat.eqb_spec (length (heap s)) p); [lia|]. rewrite Nat.eqb_refl. reflexivity.
+    + rewrite Forall_forall in *. intros a Ha. rewrite Hkeys by exact Ha. apply Hf. exact Ha.
+  - intros Hne. rewrite (absv_lfind _ _ Hok), (absv_lfind _ _ Hok').
+    rewrite lfind_snoc_ne by (rewrite Hknew; exact Hne). apply lfind_ext. intros a Ha. split; [apply Hkeys; exact Ha|].
+    intros _. rewrite append_cell by exact Hp. destruct (Nat.eqb_spec a p) as [->|]; [reflexivity|].
+    destruct (Nat.eqb_spec a (length (heap s))) as [->|]; [|reflexivity].
+    destruct (bin_ok_in _ _ _ _ Hok Ha). lia.
+Qed.
+
+Lemma unlink_effect2 s t k' h pre pred e :
+  sh_inv s -> walking s t k' h pre e -> pred_of pre pred -> keyat s e = k' ->
+  kview k' s (unlink_sh s (bini k') pred (cnext (cell_at s e))) (Some (cval (cell_at s e))) None.
+Proof.
+  intros Hinv Hw Hpr Hk.
+  destruct (unlink_effect _ _ _ _ _ _ _ Hinv Hw Hpr) as (Hinv' & Hfr & _ & (l0 & l2 & -> & Hok & Hok' & Hv & Hkey & Hcell)).
+  set (s' := unlink_sh s (bini k') pred (cnext (cell_at s e))) in *.
+  destruct (Nat.eq_dec (bini k') i0) as [Hb|Hb].
+  2:{ destruct (hs_rel_frame _ _ _ Hinv Hfr Hb) as [H1 H2]. split; [exact H1|]. split; [|intros _; exact H2].
+      intros ->. contradiction. }
+  rewrite Hb in Hok, Hok'.
+  split; [|split].
+  - eapply hs_rel_ltrans; [exact Hok|exact Hok'|eapply lt_del; reflexivity|apply Hfr| |].
+    + intros a _. apply Hkey.
+    + intros q _ _ Hq. apply Hcell. exact Hq.
+  - intros ->. rewrite (absv_lfind _ _ Hok), (absv_lfind _ _ Hok'). destruct Hw as (_ & _ & _ & Hf). split.
+    + rewrite lfind_app_none by exact Hf. cbn [lfind]. rewrite Hk, N.eqb_refl. reflexivity.
+    + destruct Hok as (_ & _ & Hnd). destruct (nodup_keys_split _ _ _ _ Hnd Hk) as [H1 H2].
+      apply lfind_none. apply Forall_app. split; eapply Forall_impl; try eassumption; cbn; intros a Ha; rewrite Hkey; exact Ha.
+  - intros Hne. rewrite (absv_lfind _ _ Hok), (absv_lfind _ _ Hok').
+    rewrite lfind_remove_ne by (rewrite Hk; exact Hne). apply lfind_ext. intros a _. auto.
+Qed.
+
+Lemma cas_effect2 s k' v :
+  sh_inv s -> bin_at s (bini k') = None -> kview k' s (cas_sh s (bini k') k' v) None (Some v).
+Proof.
+  intros Hinv Hbn. destruct (cas_effect _ k' v Hinv Hbn) as (Hinv' & Hfr & _ & Hok').
+  destruct (Nat.eq_dec (bini k') i0) as [Hb|Hb].
+  2:{ destruct (hs_rel_frame _ _ _ Hinv Hfr Hb) as [H1 H2]. split; [exact H1|]. split; [|intros _; exact H2].
+      intros ->. contradiction. }
+  rewrite Hb in *.
+  assert (Hok : bin_ok s i0 []).
+  { pose proof Hinv as (_ & _ & _ & Hbins). destruct (Hbins i0 (bini_lt k)) as (l & Hok). pose proof Hok as (Hs & _).
+    rewrite Hbn in Hs. apply pseg_next_none in Hs. subst l. exact Hok. }
+  split; [|split].
+  - eapply hs_rel_ltrans; [exact Hok|exact Hok'|eapply lt_app; [reflexivity|lia]|apply Hfr| |].
+    + intros a Ha. apply Hfr. exact Ha.
+    + intros q Hq _ _. apply cas_cell_old. exact Hq.
+  - intros ->. rewrite (absv_lfind _ _ Hok), (absv_lfind _ _ Hok'). split; [reflexivity|].
+    cbn [lfind]. unfold keyat. rewrite cas_cell_new. cbn [ckey cval]. rewrite N.eqb_refl. reflexivity.
+  - intros Hne. rewrite (absv_lfind _ _ Hok), (absv_lfind _ _ Hok').
+    cbn [lfind]. unfold keyat. rewrite cas_cell_new. cbn [ckey cval]. destruct (N.eqb_spec k' k); [contradiction|reflexivity].
+Qed.
+
+(* ---------- hindsight along a trace of shared states ---------- *)
+Local Open Scope N_scope.
+
+Lemma hindsight (pst : N -> shared) (j : N) p : forall d : nat,
+  (forall i, j <= i < j + N.of_nat d -> hs_rel (pst i) (pst (i + 1))) ->
+  (forall i, j <= i <= j + N.of_nat d -> sh_inv (pst i)) ->
+  Pk (pst j) p ->
+  Pk (pst (j + N.of_nat d)) p \/
+  exists j', j <= j' < j + N.of_nat d /\ Pk (pst j') p /\ deadk (pst (j + N.of_nat d)) p /\
+             cell_at (pst (j + N.of_nat d)) p = cell_at (pst j') p.
+Proof.
+  induction d as [|d IH]; intros Hrel Hinv HP.
+  - left. rewrite N.add_0_r. exact HP.
+  - replace (j + N.of_nat (S d)) with (j + N.of_nat d + 1) in * by lia.
+    set (n := j + N.of_nat d) in *.
+    assert (Hr : hs_rel (pst n) (pst (n + 1))) by (apply Hrel; lia).
+    destruct Hr as (_ & Hr). destruct (Hr p) as (R1 & R2 & R3).
+    destruct IH as [IH|(j' & Hj' & HP' & Hd & Hc)].
+    + intros i Hi. apply Hrel. lia.
+    + intros i Hi. apply Hinv. lia.
+    + exact HP.
+    + destruct (livek_dec (pst (n + 1)) p) as [Hl|Hl]; [apply Hinv; lia| |].
+      * left. apply R1; assumption.
+      * right. exists n. split; [lia|]. split; [exact IH|]. apply R2; [left; apply Pk_livek; exact IH|exact Hl].
+    + right. exists j'. split; [lia|]. split; [exact HP'|].
+      destruct (R2 (or_intror Hd) (R3 Hd)) as [Hd' Hc']. split; [exact Hd'|]. rewrite Hc'. exact Hc.
+Qed.
+
+Definition upd_pst (f : N -> shared) (n : N) (s : shared) : N -> shared :=
+  fun j => if j =? n then s else f j.
+Lemma upd_pst_old f n s j : j < n -> upd_pst f n s j = f j.
+Proof. intros H. unfold upd_pst. destruct (N.eqb_spec j n); [lia|reflexivity]. Qed.
+Lemma upd_pst_new f n s : upd_pst f n s n = s.
+Proof. unfold upd_pst. rewrite N.eqb_refl. reflexivity. Qed.
+
+Definition trace_ok (pst : N -> shared) (n : N) (s : shared) : Prop :=
+  pst n = s /\ absv (pst 0) = None /\
+  (forall j, j < n -> hs_rel (pst j) (pst (j + 1))) /\
+  (forall j, j <= n -> sh_inv (pst j)).
+
+Lemma trace_ext pst n s s' :
+  trace_ok pst n s -> sh_inv s' -> hs_rel s s' -> trace_ok (upd_pst pst (n + 1) s') (n + 1) s'.
+Proof.
+  intros (H1 & H0 & H2 & H3) Hinv Hrel. split; [apply upd_pst_new|]. split; [rewrite upd_pst_old by lia; exact H0|]. split.
+  - intros j Hj. rewrite (upd_pst_old _ _ _ j) by lia. destruct (N.eq_dec j n) as [->|Hne].
+    + rewrite upd_pst_new, H1. exact Hrel.
+    + rewrite upd_pst_old by lia. apply H2. lia.
+  - intros j Hj. destruct (N.eq_dec j (n + 1)) as [->|Hne]; [rewrite upd_pst_new; exact Hinv|].
+    rewrite upd_pst_old by lia. apply H3. lia.
+Qed.
+
+Lemma hindsight_now pst n s j p :
+  trace_ok pst n s -> j <= n -> Pk (pst j) p ->
+  Pk s p \/ exists j', j <= j' < n /\ Pk (pst j') p /\ deadk s p /\ cell_at s p = cell_at (pst j') p.
+Proof.
+  intros (H1 & _ & H2 & H3) Hj HP.
+  pose proof (hindsight pst j p (N.to_nat (n - j))) as H.
+  replace (j + N.of_nat (N.to_nat (n - j))) with n in H by lia. rewrite H1 in H.
+  apply H; [intros i Hi; apply H2; lia|intros i Hi; apply H3; lia|exact HP].
+Qed.
+
+(* ---------- the ghost state and the linearization invariant ---------- *)
+Definition trv (pst : N -> shared) (j : N) : option Z := absv (pst j).
+
+Definition kc_of (h : hcall) : kcall := C_ (h_inv h) (h_resp h) (kop_of (h_op h) (h_res h)).
+Definition khist (c : cfg) : list hcall := filter (fun h => (op_key (h_op h) =? k)) (hist c).
+Lemma key_history_khist c : key_history c k = map kc_of (khist c).
+Proof. reflexivity. Qed.
+
+Lemma valid_pt_ext tr tr' n cl pt :
+  (forall j, j <= n -> tr' j = tr j) -> c_res cl <= n -> valid_pt tr cl pt -> valid_pt tr' cl pt.
+Proof.
+  intros Hag Hn. destruct pt as [l|j]; cbn; intros [Hb Hk]; (split; [exact Hb|]); rewrite !Hag by lia; exact Hk.
+Qed.
+Lemma valid_pt_mono tr i r r' op pt : r <= r' -> valid_pt tr (C_ i r op) pt -> valid_pt tr (C_ i r' op) pt.
+Proof. intros Hr. destruct pt as [l|j]; cbn; intros [Hb Hk]; (split; [lia|exact Hk]). Qed.
+Lemma valid_pt_pos tr cl pt : valid_pt tr cl pt -> pt_pos pt <= c_res cl.
+Proof. destruct pt; cbn; intros [Hb _]; lia. Qed.
+
+Definition done_ok (pst : N -> shared) (n : N) (hp : hcall * point) : Prop :=
+  valid_pt (trv pst) (kc_of (fst hp)) (snd hp) /\ h_resp (fst hp) <= n.
+
+Definition pend_thr (pst : N -> shared) (n : N) (g : option point) (th : thread) : Prop :=
+  match cur th with
+  | None => g = None
+  | Some o =>
+    inv_at th <= n /\
+    if (op_key o =? k) then
+      match at_ th with
+      | GWalk _ p | PutFast _ _ p => g = None /\ exists j, inv_at th <= j <= n /\ Pk (pst j) p
+      | PutUnlock h r None => exists pt, g = Some pt /\ valid_pt (trv pst) (C_ (inv_at th) n (kop_of o r)) pt
+      | _ => g = None
+      end
+    else g = None
+  end.
+
+Definition LIN (c : cfg) (pst : N -> shared) (gpt : nat -> option point) (ghs : list (hcall * point)) : Prop :=
+  trace_ok pst (now c) (sh c) /\
+  map fst ghs = khist c /\
+  Forall (done_ok pst (now c)) ghs /\
+  NoDup (wpts (map snd ghs)) /\
+  (forall t l, gpt t = Some (PW l) -> ~ In l (wpts (map snd ghs)) /\ forall t', gpt t' = Some (PW l) -> t' = t) /\
+  (forall l, 0 < l <= now c -> trv pst (l - 1) <> trv pst l ->
+             In l (wpts (map snd ghs)) \/ exists t, gpt t = Some (PW l)) /\
+  (forall t, pend_thr pst (now c) (gpt t) (get_thr c t)).
+
+Lemma pend_thr_ext pst pst' n n' g th :
+  (forall j, j <= n -> pst' j = pst j) -> n <= n' -> pend_thr pst n g th -> pend_thr pst' n' g th.
+Proof.
+  intros Hag Hn. unfold pend_thr. destruct (cur th) as [o|]; [|auto]. intros [Hi H]. split; [lia|].
+  destruct (op_key o =? k); [|exact H].
+  destruct (at_ th); try exact H.
+  - destruct H as (Hg & j & Hj & HP). split; [exact Hg|]. exists j. split; [lia|]. rewrite Hag by lia. exact HP.
+  - destruct H as (Hg & j & Hj & HP). split; [exact Hg|]. exists j. split; [lia|]. rewrite Hag by lia. exact HP.
+  - destruct retry; [exact H|]. destruct H as (pt & Hg & Hv). exists pt. split; [exact Hg|].
+    eapply valid_pt_mono; [exact Hn|]. eapply valid_pt_ext; [|reflexivity|exact Hv].
+    intros j Hj. cbn in Hj. unfold trv. rewrite Hag by exact Hj. reflexivity.
+Qed.
+
+Lemma pend_thr_gpt pst n g th pt : pend_thr pst n g th -> g = Some pt ->
+  exists o h r, cur th = Some o /\ (op_key o =? k) = true /\ at_ th = PutUnlock h r None /\
+                valid_pt (trv pst) (C_ (inv_at th) n (kop_of o r)) pt.
+Proof.
+  unfold pend_thr. intros H ->. destruct (cur th) as [o|]; [|discriminate]. destruct H as [_ H].
+  destruct (op_key o =? k) eqn:Ek; [|discriminate]. exists o.
+  destruct (at_ th); try discriminate; try (destruct H; discriminate).
+  destruct retry; [discriminate|]. destruct H as (pt' & E & Hv). injection E as <-. exists h, r. auto.
+Qed.
+
+Lemma LIN_gpt_pos c pst gpt ghs t pt : LIN c pst gpt ghs -> gpt t = Some pt -> pt_pos pt <= now c.
+Proof.
+  intros (_ & _ & _ & _ & _ & _ & Hp) Hg. destruct (pend_thr_gpt _ _ _ _ _ (Hp t) Hg) as (o & h & r & _ & _ & _ & Hv).
+  apply valid_pt_pos in Hv. exact Hv.
+Qed.
+Lemma LIN_ghs_pos c pst gpt ghs l : LIN c pst gpt ghs -> In l (wpts (map snd ghs)) -> l <= now c.
+Proof.
+  intros (_ & _ & Hd & _) Hin. apply In_wpts in Hin. apply in_map_iff in Hin as ([h pt] & E & Hin). cbn in E. subst pt.
+  rewrite Forall_forall in Hd. destruct (Hd _ Hin) as [Hv Hr]. apply valid_pt_pos in Hv. cbn in *. lia.
+Qed.
+
+(* END-OF-SECTION *)
+End Inv.
+
+Print Assumptions binproto_inv.
+Print Assumptions binproto_deadlock_free.
